@@ -397,6 +397,9 @@ def check_split(prop, tier, seed, n_quick, n_thorough):
     n = n_quick if tier == "quick" else n_thorough
     gs = [g for g in corpus.all_grammars() if g[0] not in ("tok_refs", "tok_range")]
     gs = gs + random_cfg_grammars(seed, 40 if tier == "quick" else 600)
+    if prop == "C02":
+        # lexemes that contain one default slice and only part of another (the slicer's leftover tries matter there)
+        gs = gs + [g for g in gs if g[0] in ("rest_of_line", "dot_plus", "no_crlf", "text_then_tag", "negclass")] * 3
     if prop == "C13":
         # forced text: fixed keys, consts, enums sharing prefixes, literal-heavy Lark grammars
         pref = [g for g in gs if g[0].startswith("js:") or g[0] in ("forced_then_free", "alt_prefixes", "keywords", "fixed",
